@@ -794,6 +794,11 @@ Corollary agg_exact st c col :
   agg_max true st c col = agg_best Gt col (scan (tbl st) c).
 Proof. intros. unfold agg_min, agg_max. rewrite select_exact by assumption. split; reflexivity. Qed.
 
+Corollary count_column_exact st c col :
+  st_inv true st -> valid_tbl (tbl st) -> valid_cond c ->
+  count_column true st c col = N.of_nat (length (filter (non_null_at col) (scan (tbl st) c))).
+Proof. intros. unfold count_column. rewrite select_exact by assumption. reflexivity. Qed.
+
 Theorem select_columnar_exact st c :
   st_inv true st -> valid_tbl (tbl st) -> valid_cond c ->
   (length (sch st) <= 1000)%nat -> wt_table (sch st) (tbl st) ->
